@@ -208,6 +208,25 @@ print('RESULT', bad[:3])
 assert not bad, 'matrix(buffer) does not reproduce the exporter: %r' % (
     bad[:2],)
 ''', 'assert')
+    if fn == 'dense_concat':
+        return ('''
+RANK = {'i': 0, 'd': 1, 'z': 2}
+bad = []
+blocks = {'i': [1, matrix([2, 3])], 'd': [1.5, matrix([2.5, 3.5])],
+          'z': [1j, matrix([2j, 3.5])]}
+for tb, items in blocks.items():
+    for tc in 'idz':
+        for L in (items, [items, items]):
+            try:
+                A = matrix(L, tc=tc)
+                if RANK[tc] < RANK[tb] or A.typecode != tc:
+                    bad.append((tb, tc, A.typecode))
+            except TypeError:
+                if RANK[tc] >= RANK[tb]:
+                    bad.append((tb, tc, 'TypeError'))
+print('RESULT', bad[:5])
+assert not bad, 'matrix(blocks, tc=) typecode rule: %r' % (bad[:4],)
+''', 'assert')
     if fn == 'Matrix_NewFromSequence' and ob.kind == 'nooverflow':
         return ("x = [0] * (2**31 + 3)\n"
                 "try:\n"
